@@ -96,14 +96,15 @@ variable {Q : QRel} {cx : Cx} {β : CellRel}
 def extPerm (β : CellRel) (A B : List String) (L L' : Nat) : CellRel :=
   fun a b => β a b ∨ ∃ n i j, idx n A = some i ∧ idx n B = some j ∧ a = L + i ∧ b = L' + j
 
-theorem SRel.bindLocalsPerm {σ σ' : State N} (h : SRel Q cx β σ σ') {D : List String} {A B : List String}
+theorem SRel.bindLocalsPerm {σ σ' : State N} (h : SRel Q cx β σ σ') {D : List DName} {A B : List String}
     (hA : A.Nodup) (hB : B.Nodup) (hAB : ∀ n, n ∈ A ↔ n ∈ B) {ws ws' : List (Val N)}
-    (hv : ∀ n, valOf n A ws = valOf n B ws') {l l' : List (String × Nat)} (he : EnvRel β D l l') :
+    (hv : ∀ n, valOf n A ws = valOf n B ws') (hwA : ∀ n ∈ A, DName.wat n ∉ D)
+    {l l' : List (String × Nat)} (he : LocOK cx β D l l') :
     ∃ β', β.le β' ∧ SRel Q cx β' (Sem.bindLocals A ws l σ).2 (Sem.bindLocals B ws' l' σ').2 ∧
-      EnvRel β' D (Sem.bindLocals A ws l σ).1 (Sem.bindLocals B ws' l' σ').1 := by
+      LocOK cx β' D (Sem.bindLocals A ws l σ).1 (Sem.bindLocals B ws' l' σ').1 := by
   refine ⟨extPerm β A B σ.cells.length σ'.cells.length, fun _ _ hab => .inl hab, ?_, ?_⟩
   · rw [bindLocals_state, bindLocals_state]
-    refine ⟨h.globals, h.tables, h.trace, ?_, ?_, ?_, Forall2.imp (fun _ _ hc => hc.mono fun _ _ hab => .inl hab) h.closures⟩
+    refine ⟨h.globals, h.tables, h.trace, h.ginv, ?_, ?_, ?_, Forall2.imp (fun _ _ hc => hc.mono fun _ _ hab => .inl hab) h.closures⟩
     · intro a b a' b' h1 h2
       rcases h1 with h1 | ⟨n, i, j, hi, hj, rfl, rfl⟩ <;> rcases h2 with h2 | ⟨n', i', j', hi', hj', rfl, rfl⟩
       · exact h.inj h1 h2
@@ -138,13 +139,21 @@ theorem SRel.bindLocalsPerm {σ σ' : State N} (h : SRel Q cx β σ σ') {D : Li
         simp only [valOf, hi, hj] at this
         simp only [Nat.add_sub_cancel_left]
         exact this.symm
-  · intro n hn
+  · have hnb : ∀ m, DName.wat m ∈ D → lookupAssoc m (Sem.bindLocals A ws l σ).1 = none ∧
+        lookupAssoc m (Sem.bindLocals B ws' l' σ').1 = none := by
+      intro m hm
+      have hmA : m ∉ A := fun hmem => hwA m hmem hm
+      have hmB : m ∉ B := fun hmem => hmA ((hAB m).mpr hmem)
+      rw [bindLocals_lookup m A hA, bindLocals_lookup m B hB, idx_none_iff.mpr hmA, idx_none_iff.mpr hmB]
+      exact he.nb m hm
+    refine ⟨?_, he.dw, hnb⟩
+    intro n hn
     rw [bindLocals_lookup n A hA, bindLocals_lookup n B hB]
     cases hi : idx n A with
     | none =>
       have : idx n B = none := idx_none_iff.mpr fun hm => (idx_none_iff.mp hi) ((hAB n).mpr hm)
       rw [this]
-      exact OptRel.imp (fun _ _ hab => .inl hab) (he n hn)
+      exact OptRel.imp (fun _ _ hab => .inl hab) (he.rel n hn)
     | some i =>
       cases hj : idx n B with
       | none =>
@@ -162,8 +171,9 @@ def LocalEquiv (A : List String) (vs : List Expr) (B : List String) (vs' : List 
     | .timeout => evalEs call ρ k env vs' σ = .timeout
 
 /-- **Step (2).** -/
-theorem permLocal_sound {D : List String} {kind kind' : LocalKind} {ns ns' : List TName} {vs vs' : List Expr}
-    (heq : LocalEquiv (ns.map TName.name) vs (ns'.map TName.name) vs') (hrefl : SoundEs Q cx D vs vs) :
+theorem permLocal_sound {D : List DName} {kind kind' : LocalKind} {ns ns' : List TName} {vs vs' : List Expr}
+    (heq : LocalEquiv (ns.map TName.name) vs (ns'.map TName.name) vs')
+    (hw : ∀ n ∈ ns.map TName.name, DName.wat n ∉ D) (hrefl : SoundEs Q cx D vs vs) :
     SoundS Q cx D (.localAssign kind ns vs) (.localAssign kind' ns' vs') := by
   intro N call ρ k env env' σ σ' β hc hs he
   obtain ⟨hA, hB, hAB, hsem⟩ := heq
@@ -181,8 +191,8 @@ theorem permLocal_sound {D : List String} {kind kind' : LocalKind} {ns ns' : Lis
     obtain ⟨ws', hw', hv⟩ := h2
     rw [hw']
     simp only [Res.bind]
-    obtain ⟨β2, hle2, hs2, he2⟩ := hs1.bindLocalsPerm hA hB hAB hv (he.2.mono hle)
-    exact ⟨β2, CellRel.le_trans hle hle2, ⟨he.1, he2⟩, hs2⟩
+    obtain ⟨β2, hle2, hs2, he2⟩ := hs1.bindLocalsPerm hA hB hAB hv hw (he.loc.mono hle)
+    exact ⟨β2, CellRel.le_trans hle hle2, ⟨he.va, he2⟩, hs2⟩
   · obtain ⟨rfl, β1, hle, hs1⟩ := h1
     simp only [] at h2
     rw [h2]
